@@ -210,8 +210,13 @@ class Spec:
     NDT_PRE = {'year': (-999_999_999, 999_999_999), 'month': (0, 999_999_999), 'day': (0, 999_999_999),
                'hour': (0, 999_999_999), 'minute': (0, 999_999_999), 'sec': (0, 999_999_999), 'usec': (0, 1_000_000)}
 
+    LEXER = "format::FormatParser::<'_>::next"
+
     def internal_roots(self):
-        return [k for k in self.facts.bodies if self.is_assembly(k)]
+        out = [k for k in self.facts.bodies if self.is_assembly(k)]
+        if self.LEXER in self.facts.bodies:
+            out.append(self.LEXER)
+        return out
 
     def is_assembly(self, key):
         return key.startswith('<') and key.endswith(' as std::convert::TryFrom<format::NaiveDateTime>>::try_from')
@@ -220,7 +225,28 @@ class Spec:
         t = self.facts.types[v.ty]
         return {f['name']: i for i, f in enumerate(t['variants'][0]['fields'])}
 
+    def lexer_args(self, interp, st):
+        """&mut FormatParser { input: arbitrary bytes, pos: arbitrary position inside }"""
+        body = self.facts.bodies[self.LEXER]
+        rty = body['locals'][1]['ty']
+        pty = self.facts.types[rty]['to']
+        t = self.facts.types[pty]
+        idx = {f['name']: i for i, f in enumerate(t['variants'][0]['fields'])}
+        oid = st.new_id()
+        ln = interp.fresh_int(st, 'usize', 'len(picture)', 0, (1 << 63) - 1)
+        p0 = interp.fresh_int(st, 'usize', 'pos0', 0, (1 << 63) - 1)
+        st.num.add_fact(p0.form.sub(ln.form))
+        fs = [None, None]
+        fs[idx['input']] = VSlice(('obj', oid), Form.const(0), ln.form, ('bytes', 0, 255), 'u8')
+        fs[idx['pos']] = p0
+        pid = st.new_id()
+        st.objs[pid] = VAdt(pty, {0: tuple(fs)})
+        self.lexer_ctx = {'obj': pid, 'base': ('obj', oid), 'len': ln.form, 'p0': p0.form, 'pos_idx': idx['pos']}
+        return [VRef(('obj', pid))]
+
     def internal_args(self, interp, st, key):
+        if key == self.LEXER:
+            return self.lexer_args(interp, st)
         body = self.facts.bodies[key]
         ty = body['locals'][1]['ty']
         v = interp.top(st, ty, 'dt', assume_inv=False)
@@ -441,6 +467,8 @@ class Spec:
 
     # ------------------------------------------------------------------ root arguments
     def merge_limit(self, key, st=None):
+        if st is not None and st.stack and st.stack[0][1] == self.LEXER:
+            return 10 ** 9
         """trace-partitioning bound per callee: the text-processing helpers of the formatter/parser return many
         equivalent exit states and are merged beyond 8; arithmetic code is never merged (its exits carry the
         case splits the contracts are stated on)"""
